@@ -31,7 +31,8 @@ def TyWF : Ty → Bool
   | .semverT _ rs => rs.all arOk               -- versions as `NewVersion3` makes them (and `semver.Min`)
   | .hash k v lo hi => (TyWF k && TyWF v) && ((minInt ≤ lo && lo ≤ maxInt) && (minInt ≤ hi && hi ≤ maxInt))
   | .like b _ => TyWF b
-  | .callable h ts => !h || (TyWFL ts && decide ((ts.length : Int) ≤ maxInt))   -- the parameter Tuple: a Go slice length is an int
+  | .callable h ts hr r hb b =>     -- the parameter Tuple (a Go slice length is an int), the return type, the block type
+      (!h || (TyWFL ts && decide ((ts.length : Int) ≤ maxInt))) && ((!hr || TyWF r) && (!hb || TyWF b))
   | .struct es => TyWFS es && decide (es.length ≤ 9223372036854775807)
   | _ => true
 def TyWFL : List Ty → Bool
@@ -115,10 +116,13 @@ theorem tyEq_eq_R : ∀ a b : Ty, tyEq a b = tyEqR a b
       cases b <;> simp only [tyEq, tyEqR]
       rename_i t' n'
       rw [tyEq_eq_R t t', beq_swap n n']
-  | .callable h ts, b => by
-      cases b <;> simp only [tyEq, tyEqR]
-      rename_i h' us
-      rw [tyEqL_eq_R ts us, beq_swap ts.length us.length, beq_swap h h']
+  | .callable h ts hr r hb bl, b => by
+      cases b with
+      | callable h' us hr' r' hb' bl' =>
+        simp only [tyEq, tyEqR]
+        rw [tyEqL_eq_R ts us, beq_swap ts.length us.length, beq_swap h h', tyEq_eq_R r r', tyEq_eq_R bl bl', beq_swap hr hr',
+          beq_swap hb hb']
+      | _ => simp [tyEq, tyEqR]
   | .runtime rt n p, b => by cases b <;> simp [tyEq, tyEqR, beq_swap rt, beq_swap n, beq_swap p]
   | .struct es, b => by
       cases b <;> simp only [tyEq, tyEqR]
@@ -142,6 +146,9 @@ theorem tyEqL_eq_R : ∀ ts us : List Ty, tyEqL ts us = tyEqRL ts us
 end
 
 /-! ### symmetry -/
+
+theorem optEq_swap (x y p q : Bool) (hpq : p = q) : (y == x && (!x || p)) = (y == x && (!y || q)) := by
+  cases x <;> cases y <;> simp [hpq]
 
 mutual
 theorem tyEqR_swap : ∀ a b : Ty, tyEqR a b = tyEq b a
@@ -189,21 +196,18 @@ theorem tyEqR_swap : ∀ a b : Ty, tyEqR a b = tyEq b a
   | .like t n, b => by
       cases b <;> simp only [tyEq, tyEqR]
       rw [tyEqR_swap t _]
-  | .callable h ts, b => by
-      cases b <;> simp only [tyEq, tyEqR]
-      rename_i h' us
-      cases hh : (h' == h)
-      · simp
-      · have e : h' = h := by simpa using hh
-        subst e
-        cases h'
-        · simp
-        · simp only [Bool.true_and, Bool.not_true, Bool.false_or]
+  | .callable h ts hr r hb bl, b => by
+      cases b with
+      | callable h' us hr' r' hb' bl' =>
+        simp only [tyEq, tyEqR]
+        have hp : (us.length == ts.length && tyEqRL ts us) = (us.length == ts.length && tyEqL us ts) := by
           cases hl : (us.length == ts.length)
           · simp
-          · simp only [Bool.true_and]
-            have hl' : us.length = ts.length := by simpa using hl
-            rw [tyEqRL_swap ts us hl'.symm]
+          · have hl' : us.length = ts.length := by simpa using hl
+            simp only [Bool.true_and]
+            exact tyEqRL_swap ts us hl'.symm
+        rw [optEq_swap h h' _ _ hp, optEq_swap hr hr' _ _ (tyEqR_swap r r'), optEq_swap hb hb' _ _ (tyEqR_swap bl bl')]
+      | _ => simp [tyEq, tyEqR]
   | .runtime rt n p, b => by cases b <;> simp [tyEq, tyEqR]
   | .struct es, b => by
       cases b <;> simp only [tyEq, tyEqR]
@@ -328,11 +332,19 @@ theorem tyEq_refl : ∀ a : Ty, TyWF a = true → tyEq a a = true
       simp only [TyWF, Bool.and_eq_true] at h
       simp [tyEq, tyEq_refl k h.1.1, tyEq_refl v h.1.2]
   | .like t _, h => by simp only [TyWF] at h; simp [tyEq, tyEq_refl t h]
-  | .callable hh ts, h => by
-      cases hh
-      · simp [tyEq]
-      · simp only [TyWF, Bool.not_true, Bool.false_or, Bool.and_eq_true] at h
-        simp [tyEq, tyEqL_refl ts h.1]
+  | .callable hh ts hr r hb bl, h => by
+      simp only [TyWF, Bool.and_eq_true, Bool.or_eq_true, Bool.not_eq_true'] at h
+      simp only [tyEq, beq_self_eq_true, Bool.true_and, Bool.and_eq_true, Bool.or_eq_true, Bool.not_eq_true']
+      refine ⟨?_, ?_, ?_⟩
+      · rcases h.1 with h1 | h1
+        · exact Or.inl h1
+        · exact Or.inr (by simp [tyEqL_refl ts h1.1])
+      · rcases h.2.1 with h1 | h1
+        · exact Or.inl h1
+        · exact Or.inr (tyEq_refl r h1)
+      · rcases h.2.2 with h1 | h1
+        · exact Or.inl h1
+        · exact Or.inr (tyEq_refl bl h1)
   | .runtime _ _ _, _ => by simp [tyEq]
   | .struct es, h => by
       simp only [TyWF, Bool.and_eq_true] at h
@@ -467,16 +479,32 @@ theorem tyEq_trans : ∀ a b c : Ty, tyEq a b = true → tyEq b c = true → tyE
       cases b <;> (try (intro h; simp [tyEq] at h; done))
       cases c <;> simp [tyEq]
       intro h1 h2 h3 h4; exact ⟨h1.trans h3, tyEq_trans t _ _ h2 h4⟩
-  | .callable hh ts, b, c => by
-      cases b <;> (try (intro h; simp [tyEq] at h; done))
-      cases c <;> simp [tyEq]
-      intro e1 h1 e2 h2
-      subst e1; subst e2
-      refine ⟨rfl, ?_⟩
-      cases hh
-      · simp
-      · simp only [Bool.true_eq_false, false_or] at h1 h2 ⊢
-        exact ⟨h1.1.trans h2.1, tyEqL_trans ts _ _ h1.2 h2.2⟩
+  | .callable hh ts hr r hb bl, b, c => by
+      cases b with
+      | callable h' us hr' r' hb' bl' =>
+        cases c with
+        | callable h'' ws hr'' r'' hb'' bl'' =>
+          simp only [tyEq, Bool.and_eq_true, beq_iff_eq, Bool.or_eq_true, Bool.not_eq_true']
+          rintro ⟨⟨e1, p1⟩, ⟨e2, p2⟩, e3, p3⟩ ⟨⟨f1, q1⟩, ⟨f2, q2⟩, f3, q3⟩
+          subst e1; subst f1; subst e2; subst f2; subst e3; subst f3
+          refine ⟨⟨rfl, ?_⟩, ⟨rfl, ?_⟩, rfl, ?_⟩
+          · rcases p1 with p1 | p1
+            · exact Or.inl p1
+            · rcases q1 with q1 | q1
+              · exact Or.inl q1
+              · exact Or.inr ⟨p1.1.trans q1.1, tyEqL_trans ts _ _ p1.2 q1.2⟩
+          · rcases p2 with p2 | p2
+            · exact Or.inl p2
+            · rcases q2 with q2 | q2
+              · exact Or.inl q2
+              · exact Or.inr (tyEq_trans r _ _ p2 q2)
+          · rcases p3 with p3 | p3
+            · exact Or.inl p3
+            · rcases q3 with q3 | q3
+              · exact Or.inl q3
+              · exact Or.inr (tyEq_trans bl _ _ p3 q3)
+        | _ => intro _ h; simp [tyEq] at h
+      | _ => intro h; simp [tyEq] at h
   | .runtime _ _ _, b, c => by
       cases b <;> (try (intro h; simp [tyEq] at h; done))
       cases c <;> simp [tyEq]
